@@ -73,6 +73,43 @@ func genCeil(r *vlib.R, fam int, invalidOK bool) int {
 	return 1 + r.Intn(w)
 }
 
+// badEntries: client_networks entries that are not a CIDR exactly as written
+// (the unchanged ecs.Build rejects each of them; the Gen fact
+// bad_entry_table_rejected re-evaluates that on every run): blank and
+// whitespace-only strings, whitespace around a valid CIDR, a valid CIDR
+// followed by garbage, a bare address, out-of-range or malformed lengths,
+// zones, leading zeros.
+var badEntries = []string{
+	"", " ", "  ", "\t", "\n",
+	" 10.0.0.0/8", "10.0.0.0/8 ", " 10.0.0.0/8 ", "\t10.0.0.0/8", "10.0.0.0/8\n", "2001:db8::/32 ",
+	"10.0.0.0/8x", "10.0.0.0/8 garbage", "10.0.0.0/8,192.0.2.0/24", "10.0.0.0/8/8", "10.0.0.0/8#lan",
+	"10.0.0.0", "2001:db8::", "10.0.0.0/", "/8", "1.2.3.4/",
+	"10.0.0.0/33", "::/129", "10.0.0.0/-1", "10.0.0.0/08", "10.0.0.0/+8", "010.0.0.0/8", "10.0.0/8", "10.0.0.0.0/8",
+	"fe80::1%eth0/64", "not-a-cidr", "*", "0.0.0.0/0x0", "any",
+}
+
+func badNet(r *vlib.R) string { return "bad:" + vlib.Hex([]byte(vlib.Pick(r, badEntries))) }
+
+// genBadNets: a list an operator could have meant seriously — valid CIDRs
+// around the clients under test (with duplicates) — spoiled by one or two
+// entries that are not CIDRs, at every position.
+func genBadNets(r *vlib.R) string {
+	valid := []string{"4:0a000000/8", "4:0a010200/23", "6:20010db8000000000000000000000000/32", "4:00000000/0", "4:c0000200/24"}
+	var parts []string
+	for i := 0; i < r.Intn(3); i++ {
+		v := vlib.Pick(r, valid)
+		parts = append(parts, v)
+		if r.Chance(1, 4) {
+			parts = append(parts, v) // duplicate entry: still valid
+		}
+	}
+	for i := 0; i < 1+r.Intn(2); i++ {
+		at := r.Intn(len(parts) + 1)
+		parts = append(parts[:at], append([]string{badNet(r)}, parts[at:]...)...)
+	}
+	return strings.Join(parts, ";")
+}
+
 func genNets(r *vlib.R, bad bool) string {
 	if r.Chance(11, 20) {
 		return "-"
@@ -81,7 +118,11 @@ func genNets(r *vlib.R, bad bool) string {
 	var parts []string
 	for i := 0; i < n; i++ {
 		if bad && r.Chance(1, 12) {
-			parts = append(parts, "bad:"+vlib.Hex([]byte(vlib.Pick(r, []string{"not-a-cidr", "10.0.0.0/33", "10.0.0.0", "::/129", "1.2.3.4/", "fe80::1%eth0/64"}))))
+			parts = append(parts, badNet(r))
+			continue
+		}
+		if len(parts) > 0 && r.Chance(1, 8) {
+			parts = append(parts, parts[r.Intn(len(parts))]) // duplicate entry
 			continue
 		}
 		if r.Chance(3, 5) {
@@ -102,6 +143,10 @@ func genNets(r *vlib.R, bad bool) string {
 // valid configuration (the common case under test); otherwise anything,
 // including out-of-range values, unparsable networks and enabled=false.
 func genPolicy(r *vlib.R, good bool) string {
+	if !good && r.Chance(2, 5) {
+		// everything in range and enabled; only the network list is invalid
+		return fmt.Sprintf("t %d %d 0 0 %s", vlib.Pick(r, []int{0, 24, 32}), vlib.Pick(r, []int{0, 56, 64}), genBadNets(r))
+	}
 	en := good || r.Chance(70, 100)
 	invalidOK := !good
 	m4, m6 := 0, 0
